@@ -168,6 +168,9 @@ def program(r, nfunc=3, size=18, cpp=False):
     out.append("void vearly(void)\n{\n  if (g0) {\n    g1++;\n    return;\n  }\n  g2++;\n  if (g1)\n    return;\n  g0--;\n}")
     out.append("#define SPIN(c) while (1) { if (c) break; }")
     out.append("#define FOREVER for (;;)")
+    # statements as macro bodies, without their semicolon and with trailing comments: the mod_ options work inside directives too
+    out.append("#define RET_A return a // result\n#define RET_SUM return a + \\\n  g0 /* sum */\n#define BUMP if (g1) g2++ // bump")
+    out.append("int vmac(int a) { BUMP; if (a > 3) { RET_SUM; } RET_A; }")
     out.append("int vspin(int a) { SPIN(a > 2) FOREVER { if (a) break; } return a; }")
     if cpp:
         out.append("int vtry(int a) { if (a) { try { a = f0(a); } catch (...) { a = 0; } } a++; return a; }")
